@@ -405,6 +405,50 @@ pub async fn run_case(seed: u64, i: u64, verbose: bool) -> CaseOut {
             break;
         }
     }
+    // a hostile member's whole life cycle: named once with an extreme heartbeat, never heard of again, evaluated dead,
+    // forgotten after the dead-node grace period (its last heartbeat is remembered), then named again with equal / lower /
+    // higher heartbeats in SYN and SYN-ACK digests
+    if out.findings.is_empty() && i % 4 == 1 {
+        let z = WId { node_id: format!("zombie-{i}"), generation: rng.random(), addr: crate::common::addr(4000 + (i % 1000) as u16) };
+        let h0 = [u64::MAX, u64::MAX - 1, 1u64 << 63, 1, 0][rng.random_range(0..5)];
+        let grace = w.cfg.dead_grace;
+        let mut steps: Vec<(String, Option<Vec<u8>>)> = vec![];
+        steps.push((format!("syn naming the zombie at heartbeat {h0}"), Some(crate::craft::syn_bytes(&cluster, &[WDigestEntry { id: z.clone(), heartbeat: h0, last_gc: 0, max_version: 0 }]))));
+        steps.push(("eval".into(), None));
+        steps.push(("advance-grace".into(), None));
+        steps.push(("eval".into(), None));
+        for h in [h0, h0.wrapping_sub(1), 0, u64::MAX, h0.wrapping_add(1)] {
+            let d = [WDigestEntry { id: z.clone(), heartbeat: h, last_gc: 0, max_version: 0 }];
+            steps.push((format!("syn naming the forgotten zombie at heartbeat {h}"), Some(crate::craft::syn_bytes(&cluster, &d))));
+            steps.push((format!("synack naming the forgotten zombie at heartbeat {h}"), Some(crate::craft::synack_bytes(&d, &[]))));
+        }
+        out.c.inc("zombie_life_cycles");
+        for (what, bytes) in steps {
+            let before = snap(&cc);
+            let r: Result<(), String> = match (&bytes, what.as_str()) {
+                // (feed turns a panic inside the crate under test into an Err("PANIC ..."))
+                (Some(b), _) => match crate::craft::feed(&mut cc, b) {
+                    Err(e) if e.starts_with("PANIC") => Err(e),
+                    _ => Ok(()),
+                },
+                (None, "eval") => catch(|| cc.verif_update_nodes_liveness()),
+                _ => {
+                    tokio::time::advance(grace + Duration::from_secs(1)).await;
+                    Ok(())
+                }
+            };
+            log.push(what.clone());
+            if let Err(p) = r {
+                out.findings.push(Finding::new(&["C09"], "hostile.process_panic", format!("case {i} zombie life cycle, step {what:?}: panicked: {p}")));
+                break;
+            }
+            let after = snap(&cc);
+            check_invariants(&cc, &me, &before, &after, &format!("case {i} zombie life cycle ({what})"), what == "eval", bytes.is_some(), &mut out.findings);
+            if !out.findings.is_empty() {
+                break;
+            }
+        }
+    }
     // the node must still be able to gossip: emit a SYN and answer an honest one
     if out.findings.is_empty() {
         match catch(|| cc.verif_create_syn_message().serialize_to_vec()) {
